@@ -535,6 +535,8 @@ func c05Run(occFull, occRed [][2]int) func(c *core.Ctx) {
 				{"csv2", gen.HierSpec{Nodes: 2, Depth: 3, Names: abc, Occ: occRed[:3]}, []string{"A", "B", "C", "E", "X"}, 4, 2},
 				{"fixedlength2", gen.HierSpec{Nodes: 1, Depth: 3, Names: abc, Occ: occRed}, []string{"A", "B", "C", "E", "X"}, 4, 3},
 				{"fixedlength2", gen.HierSpec{Nodes: 2, Depth: 3, Names: abc, Occ: occRed[:3]}, []string{"A", "B", "C", "E", "X"}, 4, 2},
+				{"csv2", gen.HierSpec{Nodes: 3, Depth: 3, Names: abc, Occ: occRed[:3]}, []string{"A", "B", "C", "E", "X"}, 3, 1},
+				{"fixedlength2", gen.HierSpec{Nodes: 3, Depth: 3, Names: abc, Occ: occRed[:3]}, []string{"A", "B", "C", "E", "X"}, 3, 1},
 			}
 		} else {
 			plans = []plan{
